@@ -18,6 +18,7 @@ import SfsModel.Lemmas.VcfCodec
 import SfsModel.Lemmas.BcfCodec
 import SfsModel.Lemmas.ContainerGlue
 import SfsModel.Lemmas.BgzfFrames
+import SfsModel.Lemmas.BcfDict
 import SfsModel.Props.C12
 namespace Sfs.C12
 open Sfs
@@ -101,15 +102,40 @@ theorem create_schedule_free_bytes (a : CreateArgs) (data sched : List Nat) :
       createFromBytesC a data := by
   exact create_schedule_free inflate3 decodeContainer a data sched
 
+/-- dict_idx_honoured: a header line carrying `IDX=i` puts its id at position `i` of the BCF dictionary (whatever the order of
+    the lines), and an id that is already known must sit there — the keys of the records are resolved by position. -/
+theorem dict_idx_honoured (d d' : List (Option String)) (id : String) (i : Nat)
+    (h : dictInsert d id (some i) = some d') : d'[i]? = some (some id) := by
+  exact dictInsert_idx d d' id i h
+
+/-- dict_order_of_appearance: without `IDX`, a new id goes to the end of the dictionary and a known one changes nothing: the
+    dictionary is the order of first appearance of the header lines (F36). -/
+theorem dict_order_of_appearance (d : List (Option String)) (id : String) :
+    dictInsert d id none = some (if d.contains (some id) then d else d ++ [some id]) := by
+  exact dictInsert_none d id
+
+/-- … in particular an id's position never depends on the lines that FOLLOW its own: later insertions keep every earlier entry in
+    place. -/
+theorem dict_insert_keeps_earlier (d d' : List (Option String)) (id : String) (idx : Option Nat) (j : Nat) (x : String)
+    (h : dictInsert d id idx = some d') (hj : d[j]? = some (some x)) : d'[j]? = some (some x) := by
+  exact dictInsert_keeps d d' id idx j x h hj
+
+example : dictInsert [some "PASS"] "GT" (some 3) = some [some "PASS", none, none, some "GT"] ∧
+    dictInsert [some "PASS", none, none, some "GT"] "DP" (some 1) = some [some "PASS", some "DP", none, some "GT"] ∧
+    dictInsert [some "PASS", some "DP"] "DP" (some 2) = none ∧ dictInsert [some "PASS"] "GT" none = some [some "PASS", some "GT"] := by
+  decide
+
 /-! non-vacuity: a two-population call set with every genotype class satisfies the hypotheses -/
 example : WfCallSet ["s0", "s1 x"] ["chr1", "2"]
     [("chr1", 5, [.genotype 0, .genotype 2]), ("2", 17, [.skipped .missing, .ploidyError]), ("2", 17, [.genotype 1, .skipped .multiallelic])] := by
-  refine ⟨by decide, ?_, by decide, ?_, by decide, ?_⟩
+  refine ⟨by decide, ?_, by decide, ?_, by decide, ?_, ?_⟩
   · simp only [List.mem_cons, List.not_mem_nil, or_false]
     rintro c (rfl | rfl) <;> (unfold WfName; decide)
   · simp only [List.mem_cons, List.not_mem_nil, or_false]
     rintro c (rfl | rfl) <;> (unfold WfContig; decide)
   · simp only [List.mem_cons, List.not_mem_nil, or_false]
     rintro r (rfl | rfl | rfl) <;> simp [WfGt]
+  · simp only [List.mem_cons, List.not_mem_nil, or_false]
+    rintro r (rfl | rfl | rfl) <;> decide
 
 end Sfs.C12
